@@ -368,6 +368,10 @@ func decProtoOne(c *decProtoCase, seq []int, r *core.Rec, wrap func(*decProtoCas
 				if kind == "read" {
 					k++
 					if k == failAt {
+						if op == dpLoadParityFault2 {
+							// this one dies half-way: the first half of the file comes back together with the error
+							return &envfs.Fault{Err: envfs.ErrInjected, Partial: envfs.HalfRead, Kind: "half-read"}
+						}
 						return &envfs.Fault{Err: envfs.ErrInjected, Partial: -1, Kind: "read-error"}
 					}
 				}
